@@ -11,12 +11,38 @@ From Coq Require Import List NArith ZArith Bool Arith.
 From Verif Require Import c01vm2.Syntax c01vm2.Code.
 Import ListNotations.
 
-Record cenv := { ce_vars : list (vname * var); ce_lbls : list (lname * var) }.
-Definition ce_empty : cenv := {| ce_vars := []; ce_lbls := [] |}.
+(* what a name is bound to at compile time (scopeinfo.variables / scopeinfo.funcs, innermost first): a value
+   variable ($x: its slot), a defined function (the pc of its opscope) *)
+Inductive cbind := CV (y : var) | CF (p : nat).
+Record cenv := { ce_env : list (N * cbind); ce_lbls : list (lname * var) }.
+Definition ce_empty : cenv := {| ce_env := []; ce_lbls := [] |}.
 Definition add_var (ce : cenv) (x : vname) (k : var) : cenv :=
-  {| ce_vars := (x, k) :: ce_vars ce; ce_lbls := ce_lbls ce |}.
+  {| ce_env := (x, CV k) :: ce_env ce; ce_lbls := ce_lbls ce |}.
 Definition add_lbl (ce : cenv) (l : lname) (k : var) : cenv :=
-  {| ce_vars := ce_vars ce; ce_lbls := (l, k) :: ce_lbls ce |}.
+  {| ce_env := ce_env ce; ce_lbls := (l, k) :: ce_lbls ce |}.
+Definition add_fun (ce : cenv) (f : fname) (p : nat) : cenv :=
+  {| ce_env := (f, CF p) :: ce_env ce; ce_lbls := ce_lbls ce |}.
+(* the body of a function definition sees the names visible at the definition; in this model it sees no label
+   (a break out of a function body to a label around the definition is outside the fragment) *)
+Definition fun_env (ce : cenv) : cenv := {| ce_env := ce_env ce; ce_lbls := [] |}.
+
+Fixpoint lookup_cv (x : vname) (l : list (N * cbind)) : option var :=
+  match l with
+  | [] => None
+  | (y, CV k) :: r => if N.eqb x y then Some k else lookup_cv x r
+  | _ :: r => lookup_cv x r
+  end.
+Fixpoint lookup_cf (f : fname) (l : list (N * cbind)) : option nat :=
+  match l with
+  | [] => None
+  | (g, CF p) :: r => if N.eqb f g then Some p else lookup_cf f r
+  | _ :: r => lookup_cf f r
+  end.
+(* every slot visible at compile time belongs to a scope created before scope id sn (a sanity check of the
+   model: scope ids are allocated in increasing order) *)
+Definition ce_lt (ce : cenv) (sn : nat) : bool :=
+  forallb (fun e => match snd e with CV y => Nat.ltb (fst y) sn | CF _ => true end) (ce_env ce) &&
+  forallb (fun e => Nat.ltb (fst (snd e)) sn) (ce_lbls ce).
 
 Definition mainscope : nat := 1.       (* the builtin scope has id 0 *)
 
@@ -198,7 +224,7 @@ Fixpoint comp (q : query) (ce : cenv) (cur pc nv sn : nat) : res :=
           | None => None end
       | None => None end
   | QVar x =>
-      match lookup x (ce_vars ce) with
+      match lookup_cv x (ce_env ce) with
       | Some k => Some ([Ipop; Iload k], nv, sn)
       | None => None end
   | QCall0 f => Some ([Icall (NF0 f)], nv, sn)
@@ -222,7 +248,7 @@ Fixpoint comp (q : query) (ce : cenv) (cur pc nv sn : nat) : res :=
         end in
       (* scope ids grow: the id of a new scope exceeds the id of the scope being compiled (always true for the
          calls made by compile_raw: cur = 1, sn = 2 initially) *)
-      if Nat.ltb cur sn then
+      if Nat.ltb cur sn && ce_lt ce sn then
       match arg b (S pc) sn with
       | Some (cb, s1) =>
           match arg a (S pc + length cb) s1 with
@@ -230,6 +256,30 @@ Fixpoint comp (q : query) (ce : cenv) (cur pc nv sn : nat) : res :=
           | None => None end
       | None => None end
       else None
+  | QDef f ps body rest =>
+      (* compileFuncDef: jump over the definition; funcs += {f, pc of opscope}; a new scope; opscope (lazy);
+         the body; opret.  Then the rest of the query, in the current scope, with f visible *)
+      match ps with
+      | [] =>
+          if Nat.ltb cur sn && ce_lt ce sn then
+          let ce' := add_fun ce f (S pc) in
+          match comp body (fun_env ce') sn (pc + 2) 0 (S sn) with
+          | Some (cb, nvb, s1) =>
+              let l := pc + 2 + length cb + 1 in
+              match comp rest ce' cur l nv s1 with
+              | Some (cr, nv', s2) => Some (Ijump l :: Iscope sn nvb 0 :: cb ++ Iret :: cr, nv', s2)
+              | None => None end
+          | None => None end
+          else None
+      | _ => None
+      end
+  | QCallF f args =>
+      match args with
+      | [] => match lookup_cf f (ce_env ce) with
+              | Some p => Some ([Icallf p], nv, sn)      (* compileCallPc with no argument: opcall pc *)
+              | None => None end
+      | _ => None
+      end
   end.
 
 (* Compile(): opscope (lazy: final variablecnt), the query, opret *)
@@ -311,4 +361,46 @@ Fixpoint peepR (tg : list nat) (call : list instr) (i : nat) (l : list instr) : 
 
 Definition peephole (c : list instr) : list instr := peepR (jump_targets c) c 0 c.
 
-Definition compile (q : query) : option (list instr) := option_map peephole (compile_raw q).
+(* ---- optimizeTailRec ---- *)
+(* from pc j, following jumps: is the next instruction executed an opret? *)
+Fixpoint tr_scan (codes : list instr) (fuel j : nat) : bool :=
+  match fuel with
+  | O => false
+  | S f => match nth_error codes j with
+           | Some (Ijump t) => tr_scan codes f t
+           | Some Iret => true
+           | _ => false
+           end
+  end.
+Fixpoint tr_loop (codes l : list instr) (i : nat) (pcs : list nat) (scs : list (nat * bool)) : list instr :=
+  match l with
+  | [] => []
+  | x :: r =>
+      match x with
+      | Iscope id nv na =>
+          x :: tr_loop codes r (S i) (i :: pcs) (if Nat.eqb na 0 then (i, Nat.eqb nv 0) :: scs else scs)
+      | Icallf j =>
+          let x' := match pcs with
+                    | top :: _ =>
+                        if Nat.eqb top j then
+                          match find (fun e => Nat.eqb (fst e) j) scs with
+                          | Some (_, canjump) =>
+                              if tr_scan codes (S (length codes)) (S i)
+                              then (if canjump then Ijump (S top) else Icallrec j)
+                              else x
+                          | None => x
+                          end
+                        else x
+                    | [] => x
+                    end in
+          x' :: tr_loop codes r (S i) pcs scs
+      | Iret => match pcs with
+                | [] => x :: r
+                | _ :: pcs' => x :: tr_loop codes r (S i) pcs' scs
+                end
+      | _ => x :: tr_loop codes r (S i) pcs scs
+      end
+  end.
+Definition tailrec (c : list instr) : list instr := tr_loop c c 0 [] [].
+
+Definition compile (q : query) : option (list instr) := option_map (fun c => peephole (tailrec c)) (compile_raw q).
